@@ -376,4 +376,411 @@ fn gmk_kind(m: &GMK) -> &'static str {
         GMK::Closure(_) => "closure", GMK::OptTriple(_) => "Option<(S,P,O)>", GMK::Custom(t) => if t.mode == 1 && t.names.len() == 1 { "custom:const" } else { "custom" },
     }
 }
+
+// ---------- operations and outputs ----------
+struct QM { s: TMatch, p: TMatch, o: TMatch, g: GMatch }
+#[derive(Clone, Copy, Debug, PartialEq)]
+enum EK { Subjects, Predicates, Objects, GraphNames, Blank, Iris, Literals, Variables, Quoted }
+enum Op {
+    Insert(Q4), Remove(Q4), Contains(Q4), Query(QM), All, RemoveMatching(QM), RetainMatching(QM),
+    InsertAll(Vec<Q4>), RemoveAll(Vec<Q4>), Enum(EK),
+}
+#[derive(Clone, Debug, PartialEq)]
+enum Out { Flag(bool), Count(u64), Err, Unit, Quads(Vec<Q4>), Terms(Vec<Tid>), Unexpected(String) }
+
+fn qm_text(q: &QM, isgraph: bool) -> String {
+    if isgraph { format!("s={{{} => {:?}}} p={{{} => {:?}}} o={{{} => {:?}}}", q.s.label, q.s.d, q.p.label, q.p.d, q.o.label, q.o.d) }
+    else { format!("s={{{} => {:?}}} p={{{} => {:?}}} o={{{} => {:?}}} g={{{} => {:?}}}", q.s.label, q.s.d, q.p.label, q.p.d, q.o.label, q.o.d, q.g.label, q.g.d) }
+}
+fn op_name(o: &Op) -> &'static str {
+    match o { Op::Insert(_) => "Insert", Op::Remove(_) => "Remove", Op::Contains(_) => "Contains", Op::Query(_) => "Query", Op::All => "All", Op::RemoveMatching(_) => "RemoveMatching",
+        Op::RetainMatching(_) => "RetainMatching", Op::InsertAll(_) => "InsertAll", Op::RemoveAll(_) => "RemoveAll", Op::Enum(_) => "Enum" }
+}
+fn op_text(o: &Op, isgraph: bool) -> String {
+    match o {
+        Op::Insert(q) | Op::Remove(q) | Op::Contains(q) => format!("{}{q:?}", op_name(o)),
+        Op::Query(m) | Op::RemoveMatching(m) | Op::RetainMatching(m) => format!("{}({})", op_name(o), qm_text(m, isgraph)),
+        Op::All => "All".into(),
+        Op::InsertAll(l) | Op::RemoveAll(l) => format!("{}{l:?}", op_name(o)),
+        Op::Enum(k) => format!("Enum({k:?})"),
+    }
+}
+fn sorted<T: Ord>(mut v: Vec<T>) -> Vec<T> { v.sort(); v }
+fn sorted_dedup<T: Ord>(mut v: Vec<T>) -> Vec<T> { v.sort(); v.dedup(); v }
+
+// ---------- the real implementations ----------
+macro_rules! collect_quads { ($c:expr, $it:expr) => {{
+    let mut v: Vec<Q4> = vec![]; let mut err: Option<String> = None;
+    for q in $it { match q { Ok(q) => v.push(($c.id(q.s()), $c.id(q.p()), $c.id(q.o()), q.g().map(|g| $c.id(g)))), Err(e) => { err = Some(format!("{e:?}")); break } } }
+    match err { Some(e) => Out::Unexpected(e), None => Out::Quads(sorted(v)) }
+}}; }
+macro_rules! collect_triples { ($c:expr, $it:expr) => {{
+    let mut v: Vec<Q4> = vec![]; let mut err: Option<String> = None;
+    for t in $it { match t { Ok(t) => v.push(($c.id(t.s()), $c.id(t.p()), $c.id(t.o()), None)), Err(e) => { err = Some(format!("{e:?}")); break } } }
+    match err { Some(e) => Out::Unexpected(e), None => Out::Quads(sorted(v)) }
+}}; }
+macro_rules! collect_terms { ($c:expr, $it:expr) => {{
+    let mut v: Vec<Tid> = vec![]; let mut err: Option<String> = None;
+    for t in $it { match t { Ok(t) => v.push($c.id(t)), Err(e) => { err = Some(format!("{e:?}")); break } } }
+    match err { Some(e) => Out::Unexpected(e), None => Out::Terms(sorted_dedup(v)) }
+}}; }
+
+fn run_ds<D>(c: &Ctx, ops: &[Op], r: &mut Rng) -> Vec<Out>
+where D: MutableDataset + Default, D::Error: std::fmt::Debug, D::MutationError: std::fmt::Debug + From<D::Error>, for<'x> DTerm<'x, D>: Clone,
+{
+    let mut d = D::default();
+    let mut outs = vec![];
+    for op in ops {
+        let o = match op {
+            Op::Insert(q) => { let (s, p, o, g) = c.quad(q, r); match d.insert(s, p, o, g) { Ok(b) => Out::Flag(b), Err(_) => Out::Err } }
+            Op::Remove(q) => { let (s, p, o, g) = c.quad(q, r); match d.remove(s, p, o, g) { Ok(b) => Out::Flag(b), Err(e) => Out::Unexpected(format!("{e:?}")) } }
+            Op::Contains(q) => { let (s, p, o, g) = c.quad(q, r); match d.contains(s, p, o, g) { Ok(b) => Out::Flag(b), Err(e) => Out::Unexpected(format!("{e:?}")) } }
+            Op::Query(m) => collect_quads!(c, d.quads_matching(m.s.m.matcher_ref(), m.p.m.matcher_ref(), m.o.m.matcher_ref(), m.g.m.matcher_ref())),
+            Op::All => collect_quads!(c, d.quads()),
+            Op::RemoveMatching(m) => match d.remove_matching(m.s.m.matcher_ref(), m.p.m.matcher_ref(), m.o.m.matcher_ref(), m.g.m.matcher_ref()) { Ok(n) => Out::Count(n as u64), Err(e) => Out::Unexpected(format!("{e:?}")) },
+            Op::RetainMatching(m) => match d.retain_matching(m.s.m.matcher_ref(), m.p.m.matcher_ref(), m.o.m.matcher_ref(), m.g.m.matcher_ref()) { Ok(()) => Out::Unit, Err(e) => Out::Unexpected(format!("{e:?}")) },
+            Op::InsertAll(l) => {
+                let v: Vec<Spog<ST>> = l.iter().map(|q| { let (s, p, o, g) = c.quad(q, r); ([s, p, o], g) }).collect();
+                match d.insert_all(v.into_iter().into_source()) { Ok(n) => Out::Count(n as u64), Err(_) => Out::Err }
+            }
+            Op::RemoveAll(l) => {
+                let v: Vec<Spog<ST>> = l.iter().map(|q| { let (s, p, o, g) = c.quad(q, r); ([s, p, o], g) }).collect();
+                match d.remove_all(v.into_iter().into_source()) { Ok(n) => Out::Count(n as u64), Err(e) => Out::Unexpected(format!("{e:?}")) }
+            }
+            Op::Enum(k) => match k {
+                EK::Subjects => collect_terms!(c, d.subjects()), EK::Predicates => collect_terms!(c, d.predicates()), EK::Objects => collect_terms!(c, d.objects()),
+                EK::GraphNames => collect_terms!(c, d.graph_names()), EK::Blank => collect_terms!(c, d.blank_nodes()), EK::Iris => collect_terms!(c, d.iris()),
+                EK::Literals => collect_terms!(c, d.literals()), EK::Variables => collect_terms!(c, d.variables()), EK::Quoted => collect_terms!(c, d.quoted_triples()),
+            },
+        };
+        outs.push(o);
+    }
+    outs
+}
+
+fn run_gr<G>(c: &Ctx, ops: &[Op], r: &mut Rng) -> Vec<Out>
+where G: MutableGraph + Default, G::Error: std::fmt::Debug, G::MutationError: std::fmt::Debug + From<G::Error>, for<'x> GTerm<'x, G>: Clone,
+{
+    let mut d = G::default();
+    let mut outs = vec![];
+    for op in ops {
+        let o = match op {
+            Op::Insert(q) => { let (s, p, o, _) = c.quad(q, r); match d.insert(s, p, o) { Ok(b) => Out::Flag(b), Err(_) => Out::Err } }
+            Op::Remove(q) => { let (s, p, o, _) = c.quad(q, r); match d.remove(s, p, o) { Ok(b) => Out::Flag(b), Err(e) => Out::Unexpected(format!("{e:?}")) } }
+            Op::Contains(q) => { let (s, p, o, _) = c.quad(q, r); match d.contains(s, p, o) { Ok(b) => Out::Flag(b), Err(e) => Out::Unexpected(format!("{e:?}")) } }
+            Op::Query(m) => collect_triples!(c, d.triples_matching(m.s.m.matcher_ref(), m.p.m.matcher_ref(), m.o.m.matcher_ref())),
+            Op::All => collect_triples!(c, d.triples()),
+            Op::RemoveMatching(m) => match d.remove_matching(m.s.m.matcher_ref(), m.p.m.matcher_ref(), m.o.m.matcher_ref()) { Ok(n) => Out::Count(n as u64), Err(e) => Out::Unexpected(format!("{e:?}")) },
+            Op::RetainMatching(m) => match d.retain_matching(m.s.m.matcher_ref(), m.p.m.matcher_ref(), m.o.m.matcher_ref()) { Ok(()) => Out::Unit, Err(e) => Out::Unexpected(format!("{e:?}")) },
+            Op::InsertAll(l) => {
+                let v: Vec<[ST; 3]> = l.iter().map(|q| { let (s, p, o, _) = c.quad(q, r); [s, p, o] }).collect();
+                match d.insert_all(v.into_iter().into_source()) { Ok(n) => Out::Count(n as u64), Err(_) => Out::Err }
+            }
+            Op::RemoveAll(l) => {
+                let v: Vec<[ST; 3]> = l.iter().map(|q| { let (s, p, o, _) = c.quad(q, r); [s, p, o] }).collect();
+                match d.remove_all(v.into_iter().into_source()) { Ok(n) => Out::Count(n as u64), Err(e) => Out::Unexpected(format!("{e:?}")) }
+            }
+            Op::Enum(k) => match k {
+                EK::Subjects => collect_terms!(c, d.subjects()), EK::Predicates => collect_terms!(c, d.predicates()), EK::Objects => collect_terms!(c, d.objects()),
+                EK::GraphNames => Out::Unexpected("graph_names on a graph".into()), EK::Blank => collect_terms!(c, d.blank_nodes()), EK::Iris => collect_terms!(c, d.iris()),
+                EK::Literals => collect_terms!(c, d.literals()), EK::Variables => collect_terms!(c, d.variables()), EK::Quoted => collect_terms!(c, d.quoted_triples()),
+            },
+        };
+        outs.push(o);
+    }
+    outs
+}
+
+// ---------- naive oracle (plain Rust, no sophia, independent of the Coq model) ----------
+#[derive(Clone, Copy, Debug, PartialEq)]
+enum Mode { Set, ListRemoveAll, ListRemoveFirst }
+fn md_ok(m: &MD, t: Tid) -> bool { match m { MD::Any => true, MD::Const(c) => *c == t, MD::OneOf(l) => l.contains(&t), MD::NotOneOf(l) => !l.contains(&t) } }
+fn gd_ok(m: &GD, g: Option<Tid>) -> bool { match m { GD::Any => true, GD::Const(c) => *c == g, GD::OneOf(l) => l.contains(&g), GD::NotOneOf(l) => !l.contains(&g) } }
+/// (kind, atoms, triple constituents) of each pool identifier
+fn pool_info(id: Tid) -> (u64, Vec<Tid>, Vec<Tid>) {
+    match id {
+        4 | 5 => (0, vec![id], vec![]), 1 | 2 | 3 | 12 | 13 => (1, vec![id], vec![]), 6 | 7 | 8 | 9 | 15 => (2, vec![id], vec![]), 11 => (4, vec![id], vec![]),
+        10 => (3, vec![1, 3, 4], vec![10]), 16 => (3, vec![1, 3, 7], vec![16]), 14 => (3, vec![1, 3, 7, 3, 15], vec![14, 16]),
+        _ => unreachable!(),
+    }
+}
+struct Oracle { quads: Vec<Q4>, interned: Vec<Tid>, cap: Option<usize>, mode: Mode, isgraph: bool }
+impl Oracle {
+    fn q_ok(&self, m: &QM, q: &Q4) -> bool { md_ok(&m.s.d, q.0) && md_ok(&m.p.d, q.1) && md_ok(&m.o.d, q.2) && (self.isgraph || gd_ok(&m.g.d, q.3)) }
+    fn insert(&mut self, q: &Q4) -> Option<bool> {
+        if self.mode != Mode::Set { self.quads.push(*q); return Some(true) }
+        let mut ts = vec![q.0, q.1, q.2];
+        if let Some(g) = q.3 { ts.push(g) }
+        for t in ts {
+            if !self.interned.contains(&t) {
+                if let Some(cap) = self.cap { if self.interned.len() >= cap { return None } }
+                self.interned.push(t);
+            }
+        }
+        let b = !self.quads.contains(q);
+        if b { self.quads.push(*q) }
+        Some(b)
+    }
+    fn remove(&mut self, q: &Q4) -> bool {
+        match self.mode {
+            Mode::Set => { let b = self.quads.contains(q); self.quads.retain(|x| x != q); b }
+            Mode::ListRemoveAll => { self.quads.retain(|x| x != q); true }
+            Mode::ListRemoveFirst => match self.quads.iter().position(|x| x == q) { Some(i) => { self.quads.remove(i); true } None => false },
+        }
+    }
+    fn remove_each(&mut self, l: &[Q4]) -> u64 { let mut n = 0; for q in l { if self.remove(q) { n += 1 } } n }
+    fn step(&mut self, op: &Op) -> Out {
+        match op {
+            Op::Insert(q) => match self.insert(q) { Some(b) => Out::Flag(b), None => Out::Err },
+            Op::Remove(q) => Out::Flag(self.remove(q)),
+            Op::Contains(q) => Out::Flag(self.quads.contains(q)),
+            Op::Query(m) => Out::Quads(sorted(self.quads.iter().filter(|q| self.q_ok(m, q)).cloned().collect())),
+            Op::All => Out::Quads(sorted(self.quads.clone())),
+            Op::RemoveMatching(m) => {
+                let hit: Vec<Q4> = self.quads.iter().filter(|q| self.q_ok(m, q)).cloned().collect();
+                if self.mode == Mode::Set { self.quads.retain(|q| !hit.contains(q)); Out::Count(hit.len() as u64) } else { Out::Count(self.remove_each(&hit)) }
+            }
+            Op::RetainMatching(m) => {
+                let miss: Vec<Q4> = self.quads.iter().filter(|q| !self.q_ok(m, q)).cloned().collect();
+                if self.mode == Mode::Set { self.quads.retain(|q| !miss.contains(q)) } else { self.remove_each(&miss); }
+                Out::Unit
+            }
+            Op::InsertAll(l) => { let mut n = 0; for q in l { match self.insert(q) { None => return Out::Err, Some(true) => n += 1, Some(false) => {} } } Out::Count(n) }
+            Op::RemoveAll(l) => Out::Count(self.remove_each(l)),
+            Op::Enum(k) => {
+                let spog = |q: &Q4| -> Vec<Tid> { let mut v = vec![q.0, q.1, q.2]; if let Some(g) = q.3 { v.push(g) } v };
+                let atoms = |kind: u64| -> Vec<Tid> { self.quads.iter().flat_map(spog).flat_map(|t| pool_info(t).1).filter(|a| pool_info(*a).0 == kind).collect() };
+                Out::Terms(sorted_dedup(match k {
+                    EK::Subjects => self.quads.iter().map(|q| q.0).collect(), EK::Predicates => self.quads.iter().map(|q| q.1).collect(), EK::Objects => self.quads.iter().map(|q| q.2).collect(),
+                    EK::GraphNames => self.quads.iter().filter_map(|q| q.3).collect(),
+                    EK::Blank => atoms(0), EK::Iris => atoms(1), EK::Literals => atoms(2), EK::Variables => atoms(4),
+                    EK::Quoted => self.quads.iter().flat_map(spog).flat_map(|t| pool_info(t).2).collect(),
+                }))
+            }
+        }
+    }
+}
+fn run_oracle(st: &Store, ops: &[Op]) -> Vec<Out> {
+    let mut o = Oracle { quads: vec![], interned: vec![], cap: st.cap, mode: st.mode, isgraph: st.isgraph };
+    ops.iter().map(|op| o.step(op)).collect()
+}
+
+// ---------- the stores ----------
+#[derive(Clone, Debug)]
+struct Store { name: String, config: &'static str, max: u64, cap: Option<usize>, mode: Mode, isgraph: bool, small_m: Option<u8>, fast: bool }
+const MS: [u8; 6] = [3, 4, 5, 6, 8, 12];
+fn stores() -> Vec<Store> {
+    let mut v = vec![];
+    for isgraph in [false, true] {
+        let (f, l, kind) = if isgraph { ("FastGraph", "LightGraph", "graph") } else { ("FastDataset", "LightDataset", "dataset") };
+        let mk = |name: String, config: &'static str, max: u64, cap: Option<usize>, mode: Mode, small_m: Option<u8>, fast: bool| Store { name, config, max, cap, mode, isgraph, small_m, fast };
+        v.push(mk(format!("{kind}::{f}"), f, 4294967295, Some(4294967295), Mode::Set, None, true));
+        v.push(mk(format!("{kind}::{l}"), l, 4294967295, Some(4294967295), Mode::Set, None, false));
+        v.push(mk(format!("{kind}::small::{f}"), f, 65535, Some(65535), Mode::Set, None, true));
+        v.push(mk(format!("{kind}::small::{l}"), l, 65535, Some(65535), Mode::Set, None, false));
+        for m in MS { v.push(mk(format!("Generic{f}<SmallIdx<{m}>>"), f, m as u64, Some(m as usize), Mode::Set, Some(m), true)); }
+        for m in MS { v.push(mk(format!("Generic{l}<SmallIdx<{m}>>"), l, m as u64, Some(m as usize), Mode::Set, Some(m), false)); }
+        if isgraph {
+            v.push(mk("HashSet<[T;3]>".into(), "SetGraph", 0, None, Mode::Set, None, false));
+            v.push(mk("BTreeSet<[T;3]>".into(), "SetGraph", 0, None, Mode::Set, None, false));
+            v.push(mk("Vec<[T;3]>".into(), "VecGraph", 0, None, Mode::ListRemoveAll, None, false));
+        } else {
+            v.push(mk("HashSet<Spog>".into(), "SetDataset", 0, None, Mode::Set, None, false));
+            v.push(mk("BTreeSet<Spog>".into(), "SetDataset", 0, None, Mode::Set, None, false));
+            v.push(mk("HashSet<Gspo>".into(), "SetDataset", 0, None, Mode::Set, None, false));
+            v.push(mk("BTreeSet<Gspo>".into(), "SetDataset", 0, None, Mode::Set, None, false));
+            v.push(mk("Vec<Spog>".into(), "VecSpogDataset", 0, None, Mode::ListRemoveAll, None, false));
+            v.push(mk("Vec<Gspo>".into(), "VecGspoDataset", 0, None, Mode::ListRemoveFirst, None, false));
+        }
+    }
+    v
+}
+type Cap<const M: u8> = SimpleTermIndex<SmallIdx<M>>;
+fn run_real(c: &Ctx, st: &Store, ops: &[Op], r: &mut Rng) -> Vec<Out> {
+    use sophia_inmem::dataset as ds;
+    use sophia_inmem::graph as gr;
+    match st.name.as_str() {
+        "dataset::FastDataset" => run_ds::<ds::FastDataset>(c, ops, r),
+        "dataset::LightDataset" => run_ds::<ds::LightDataset>(c, ops, r),
+        "dataset::small::FastDataset" => run_ds::<ds::small::FastDataset>(c, ops, r),
+        "dataset::small::LightDataset" => run_ds::<ds::small::LightDataset>(c, ops, r),
+        "HashSet<Spog>" => run_ds::<HashSet<Spog<ST>>>(c, ops, r),
+        "BTreeSet<Spog>" => run_ds::<BTreeSet<Spog<ST>>>(c, ops, r),
+        "HashSet<Gspo>" => run_ds::<HashSet<Gspo<ST>>>(c, ops, r),
+        "BTreeSet<Gspo>" => run_ds::<BTreeSet<Gspo<ST>>>(c, ops, r),
+        "Vec<Spog>" => run_ds::<Vec<Spog<ST>>>(c, ops, r),
+        "Vec<Gspo>" => run_ds::<Vec<Gspo<ST>>>(c, ops, r),
+        "graph::FastGraph" => run_gr::<gr::FastGraph>(c, ops, r),
+        "graph::LightGraph" => run_gr::<gr::LightGraph>(c, ops, r),
+        "graph::small::FastGraph" => run_gr::<gr::small::FastGraph>(c, ops, r),
+        "graph::small::LightGraph" => run_gr::<gr::small::LightGraph>(c, ops, r),
+        "HashSet<[T;3]>" => run_gr::<HashSet<[ST; 3]>>(c, ops, r),
+        "BTreeSet<[T;3]>" => run_gr::<BTreeSet<[ST; 3]>>(c, ops, r),
+        "Vec<[T;3]>" => run_gr::<Vec<[ST; 3]>>(c, ops, r),
+        _ => match (st.isgraph, st.fast, st.small_m) {
+            (false, true, Some(3)) => run_ds::<ds::GenericFastDataset<Cap<3>>>(c, ops, r),
+            (false, true, Some(4)) => run_ds::<ds::GenericFastDataset<Cap<4>>>(c, ops, r),
+            (false, true, Some(5)) => run_ds::<ds::GenericFastDataset<Cap<5>>>(c, ops, r),
+            (false, true, Some(6)) => run_ds::<ds::GenericFastDataset<Cap<6>>>(c, ops, r),
+            (false, true, Some(8)) => run_ds::<ds::GenericFastDataset<Cap<8>>>(c, ops, r),
+            (false, true, Some(12)) => run_ds::<ds::GenericFastDataset<Cap<12>>>(c, ops, r),
+            (false, false, Some(3)) => run_ds::<ds::GenericLightDataset<Cap<3>>>(c, ops, r),
+            (false, false, Some(4)) => run_ds::<ds::GenericLightDataset<Cap<4>>>(c, ops, r),
+            (false, false, Some(5)) => run_ds::<ds::GenericLightDataset<Cap<5>>>(c, ops, r),
+            (false, false, Some(6)) => run_ds::<ds::GenericLightDataset<Cap<6>>>(c, ops, r),
+            (false, false, Some(8)) => run_ds::<ds::GenericLightDataset<Cap<8>>>(c, ops, r),
+            (false, false, Some(12)) => run_ds::<ds::GenericLightDataset<Cap<12>>>(c, ops, r),
+            (true, true, Some(3)) => run_gr::<gr::GenericFastGraph<Cap<3>>>(c, ops, r),
+            (true, true, Some(4)) => run_gr::<gr::GenericFastGraph<Cap<4>>>(c, ops, r),
+            (true, true, Some(5)) => run_gr::<gr::GenericFastGraph<Cap<5>>>(c, ops, r),
+            (true, true, Some(6)) => run_gr::<gr::GenericFastGraph<Cap<6>>>(c, ops, r),
+            (true, true, Some(8)) => run_gr::<gr::GenericFastGraph<Cap<8>>>(c, ops, r),
+            (true, true, Some(12)) => run_gr::<gr::GenericFastGraph<Cap<12>>>(c, ops, r),
+            (true, false, Some(3)) => run_gr::<gr::GenericLightGraph<Cap<3>>>(c, ops, r),
+            (true, false, Some(4)) => run_gr::<gr::GenericLightGraph<Cap<4>>>(c, ops, r),
+            (true, false, Some(5)) => run_gr::<gr::GenericLightGraph<Cap<5>>>(c, ops, r),
+            (true, false, Some(6)) => run_gr::<gr::GenericLightGraph<Cap<6>>>(c, ops, r),
+            (true, false, Some(8)) => run_gr::<gr::GenericLightGraph<Cap<8>>>(c, ops, r),
+            (true, false, Some(12)) => run_gr::<gr::GenericLightGraph<Cap<12>>>(c, ops, r),
+            _ => panic!("unknown store {}", st.name),
+        },
+    }
+}
+
+// ---------- generation of histories ----------
+const PREDS: [Tid; 4] = [3, 1, 2, 12];
+const GNS: [Tid; 4] = [12, 13, 4, 1];
+/// where the terms of generated quads come from (per case); `spread`/16 = chance of leaving the palette
+struct Palette { so: Vec<Tid>, p: Vec<Tid>, g: Vec<Option<Tid>>, spread: usize }
+fn palette(r: &mut Rng, st: &Store) -> Palette {
+    match st.small_m {
+        // as c11's gen_tid / gen_t3 / gen_g
+        None => Palette { so: (1..=6).collect(), p: vec![3, 3, 1, 2, 12], g: vec![None, None, Some(12), Some(12), Some(4), Some(13), Some(1)], spread: 4 },
+        // capacity-limited: a palette of about M terms, so that about half of the histories overflow
+        Some(m) => {
+            let m = m as usize;
+            let t = r.range(m.saturating_sub(2).max(3), m + 2);
+            let mut pal: Vec<Tid> = vec![*r.pick(&PREDS)];
+            if !st.isgraph && r.chance(7, 10) { let g = *r.pick(&GNS); if !pal.contains(&g) { pal.push(g) } }
+            while pal.len() < t { let x = 1 + r.below(NT as usize) as u64; if !pal.contains(&x) { pal.push(x) } }
+            let p: Vec<Tid> = pal.iter().filter(|x| PREDS.contains(x)).cloned().collect();
+            let mut g = vec![None, None];
+            g.extend(pal.iter().filter(|x| GNS.contains(x)).map(|x| Some(*x)));
+            Palette { so: pal, p, g, spread: *r.pick(&[0, 0, 1]) }
+        }
+    }
+}
+impl Palette {
+    fn tid(&self, r: &mut Rng) -> Tid { if r.below(16) < self.spread { 1 + r.below(NT as usize) as u64 } else { *r.pick(&self.so) } }
+    fn pred(&self, r: &mut Rng) -> Tid { if r.below(16) < self.spread { *r.pick(&PREDS) } else { *r.pick(&self.p) } }
+    fn gname(&self, r: &mut Rng) -> Option<Tid> { if r.below(16) < self.spread { *r.pick(&[None, None, Some(12), Some(12), Some(4), Some(13), Some(1)]) } else { *r.pick(&self.g) } }
+    fn quad(&self, r: &mut Rng, isgraph: bool) -> Q4 { (self.tid(r), self.pred(r), self.tid(r), if isgraph { None } else { self.gname(r) }) }
+}
+fn no_g() -> GMatch { GMatch { m: GMK::Any(Any), d: GD::Any, label: "-".into() } }
+/// shape: bit 8 = g bound, 4 = s bound, 2 = p bound, 1 = o bound (bound = matcher with a constant)
+fn gen_qm_shape(c: &Ctx, r: &mut Rng, pal: &Palette, base: Q4, shape: usize, isgraph: bool) -> QM {
+    let free = |c: &Ctx, r: &mut Rng, cands: &[Tid]| if r.chance(1, 3) { (TMK::Any(Any), "Any".to_string()) } else { gen_free_t(c, r, cands, 0) };
+    let s = if shape & 4 != 0 { gen_const_t(c, r, base.0) } else { free(c, r, &pal.so) };
+    let p = if shape & 2 != 0 { gen_const_t(c, r, base.1) } else { free(c, r, &pal.p) };
+    let o = if shape & 1 != 0 { gen_const_t(c, r, base.2) } else { free(c, r, &pal.so) };
+    let g = if isgraph { no_g() } else if shape & 8 != 0 { gmatch(c, gen_const_g(c, r, base.3)) } else if r.chance(1, 3) { gmatch(c, (GMK::Any(Any), "Any".into())) } else { gmatch(c, gen_free_g(c, r, &pal.g, 0)) };
+    QM { s: tmatch(c, s), p: tmatch(c, p), o: tmatch(c, o), g }
+}
+fn gen_qm(c: &Ctx, r: &mut Rng, pal: &Palette, inserted: &[Q4], isgraph: bool) -> QM {
+    let shape = r.below(16);
+    let base = if !inserted.is_empty() && r.chance(3, 5) { *r.pick(inserted) } else { pal.quad(r, isgraph) };
+    gen_qm_shape(c, r, pal, base, shape, isgraph)
+}
+fn gen_op(c: &Ctx, r: &mut Rng, pal: &Palette, inserted: &mut Vec<Q4>, isgraph: bool) -> Op {
+    let known = |r: &mut Rng, inserted: &[Q4]| if !inserted.is_empty() && r.chance(2, 3) { *r.pick(inserted) } else { pal.quad(r, isgraph) };
+    match r.below(100) {
+        0..=34 => { let q = if !inserted.is_empty() && r.chance(1, 6) { *r.pick(inserted) } else { pal.quad(r, isgraph) }; inserted.push(q); Op::Insert(q) }
+        35..=44 => Op::Remove(known(r, inserted)),
+        45..=49 => Op::Contains(known(r, inserted)),
+        50..=74 => Op::Query(gen_qm(c, r, pal, inserted, isgraph)),
+        75..=77 => Op::All,
+        78..=82 => Op::RemoveMatching(gen_qm(c, r, pal, inserted, isgraph)),
+        83..=86 => Op::RetainMatching(gen_qm(c, r, pal, inserted, isgraph)),
+        87..=91 => { let n = r.below(7); let l: Vec<Q4> = (0..n).map(|_| pal.quad(r, isgraph)).collect(); inserted.extend(l.iter().cloned()); Op::InsertAll(l) }
+        92..=94 => { let n = r.below(7); Op::RemoveAll((0..n).map(|_| known(r, inserted)).collect()) }
+        _ => Op::Enum(*r.pick(if isgraph { &[EK::Subjects, EK::Predicates, EK::Objects, EK::Blank, EK::Iris, EK::Literals, EK::Variables, EK::Quoted][..] }
+                              else { &[EK::Subjects, EK::Predicates, EK::Objects, EK::GraphNames, EK::GraphNames, EK::Blank, EK::Iris, EK::Literals, EK::Variables, EK::Quoted][..] })),
+    }
+}
+/// boundary case on a capacity-limited store: fill the term index exactly, query every shape around the
+/// last index, overflow, then check that the store still works
+fn gen_directed(c: &Ctx, r: &mut Rng, idx: usize, all: &[Store]) -> (Store, Vec<Op>) {
+    let k = idx / 10;
+    let (isgraph, fast, m) = (k % 2 == 1, (k / 2) % 2 == 0, [3u8, 4, 5][(k / 4) % 3]);
+    let st = all.iter().find(|s| s.isgraph == isgraph && s.fast == fast && s.small_m == Some(m)).unwrap().clone();
+    let m = m as usize;
+    let p = *r.pick(&PREDS);
+    let mut l: Vec<Tid> = vec![];
+    while l.len() < m { let x = 1 + r.below(NT as usize) as u64; if x != p && !l.contains(&x) { l.push(x) } }
+    l[1] = p;
+    let fresh: Vec<Tid> = (1..=NT).filter(|x| !l.contains(x)).collect();
+    let newt = *r.pick(&fresh);
+    let last = l[m - 1];
+    let mut ops = vec![];
+    let mut stored: Vec<Q4> = vec![(l[0], l[1], l[2], None)];
+    for k in 3..m {
+        let old = &l[..k];
+        let mut q: Q4 = (*r.pick(old), l[1], *r.pick(old), if isgraph || r.chance(1, 2) { None } else { Some(*r.pick(old)) });
+        match r.below(if isgraph { 3 } else { 4 }) { 0 => q.0 = l[k], 1 => q.1 = l[k], 2 => q.2 = l[k], _ => q.3 = Some(l[k]) }
+        stored.push(q);
+    }
+    if !isgraph && !stored.iter().any(|q| q.3.is_some()) { stored.push((l[0], l[1], last, Some(*r.pick(&l)))) }
+    if !stored.iter().any(|q| q.3.is_none() && (q.0 == last || q.1 == last || q.2 == last)) { stored.push((last, l[1], l[0], None)) }
+    for q in &stored { ops.push(Op::Insert(*q)) }
+    let with_last = |q: &&Q4| q.0 == last || q.1 == last || q.2 == last || q.3 == Some(last);
+    let qd = *stored.iter().filter(|q| q.3.is_none()).filter(with_last).next().unwrap();
+    let qn = if isgraph { qd } else { let named: Vec<&Q4> = stored.iter().filter(|q| q.3.is_some()).collect(); **named.iter().find(|q| with_last(q)).unwrap_or(&named[0]) };
+    let pal = Palette { so: l.clone(), p: vec![l[1]], g: stored.iter().map(|q| q.3).collect(), spread: 0 };
+    let mut gbound = 0;
+    for shape in 0..(if isgraph { 8 } else { 16 }) {
+        let base = if shape & 8 != 0 { gbound += 1; if gbound % 2 == 1 { qd } else { qn } } else if r.chance(1, 2) { qd } else { qn };
+        ops.push(Op::Query(gen_qm_shape(c, r, &pal, base, shape, isgraph)));
+    }
+    let mut over: Q4 = (l[0], l[1], l[2], None);
+    match r.below(if isgraph { 2 } else { 3 }) { 0 => over.0 = newt, 1 => over.2 = newt, _ => over.3 = Some(newt) }
+    ops.push(Op::Insert(over)); // must fail: the term index is full
+    ops.push(Op::Contains(over));
+    ops.push(Op::Contains(qd));
+    ops.push(Op::Query(gen_qm_shape(c, r, &pal, qd, 0, isgraph)));
+    let pos = if qd.0 == last { 4 } else if qd.2 == last { 1 } else { 2 };
+    ops.push(Op::Query(gen_qm_shape(c, r, &pal, qd, pos, isgraph)));
+    ops.push(Op::Remove(qd));
+    ops.push(Op::Insert((l[0], l[1], last, None)));
+    ops.push(Op::Insert(qd));
+    ops.push(Op::All);
+    ops.push(Op::Enum(EK::Subjects));
+    (st, ops)
+}
+
+// ---------- Coq printing ----------
+fn c_g(g: &Option<Tid>) -> String { coq_opt(g.map(|g| g.to_string())) }
+fn c_q4(q: &Q4) -> String { format!("mkQ {} {} {} {}", q.0, q.1, q.2, c_g(&q.3)) }
+fn c_ql(l: &[Q4]) -> String { coq_list(l.iter().map(c_q4)) }
+fn c_ids(l: &[Tid]) -> String { coq_list(l.iter().map(|x| x.to_string())) }
+fn c_gl(l: &[Option<Tid>]) -> String { coq_list(l.iter().map(|g| match g { None => "None".to_string(), Some(x) => format!("Some {x}") })) }
+fn c_md(m: &MD) -> String { match m { MD::Any => "(md MAny)".into(), MD::Const(x) => format!("(md (MConst {x}))"), MD::OneOf(l) => format!("(md (MOneOf {}))", c_ids(l)), MD::NotOneOf(l) => format!("(md (MNotOneOf {}))", c_ids(l)) } }
+fn c_gd(m: &GD) -> String { match m { GD::Any => "(gd GAny)".into(), GD::Const(g) => format!("(gd (GConst {}))", c_g(g)), GD::OneOf(l) => format!("(gd (GOneOf {}))", c_gl(l)), GD::NotOneOf(l) => format!("(gd (GNotOneOf {}))", c_gl(l)) } }
+fn c_qm(m: &QM, isgraph: bool) -> String { format!("{} {} {} {}", c_md(&m.s.d), c_md(&m.p.d), c_md(&m.o.d), if isgraph { "(gd GAny)".to_string() } else { c_gd(&m.g.d) }) }
+fn c_op(o: &Op, isgraph: bool) -> String {
+    match o {
+        Op::Insert(q) => format!("Insert ({})", c_q4(q)), Op::Remove(q) => format!("Remove ({})", c_q4(q)), Op::Contains(q) => format!("Contains ({})", c_q4(q)),
+        Op::Query(m) => format!("Query {}", c_qm(m, isgraph)), Op::All => "All".into(),
+        Op::RemoveMatching(m) => format!("RemoveMatching {}", c_qm(m, isgraph)), Op::RetainMatching(m) => format!("RetainMatching {}", c_qm(m, isgraph)),
+        Op::InsertAll(l) => format!("InsertAll {}", c_ql(l)), Op::RemoveAll(l) => format!("RemoveAll {}", c_ql(l)),
+        Op::Enum(k) => format!("Enum {}", match k { EK::Subjects => "ESubjects", EK::Predicates => "EPredicates", EK::Objects => "EObjects", EK::GraphNames => "EGraphNames",
+            EK::Blank => "(EAtoms 0)", EK::Iris => "(EAtoms 1)", EK::Literals => "(EAtoms 2)", EK::Variables => "(EAtoms 4)", EK::Quoted => "EQuoted" }),
+    }
+}
+fn c_out(o: &Out) -> String {
+    match o {
+        Out::Flag(b) => format!("OFlag {}", coq_bool(*b)), Out::Count(n) => format!("OCount {n}"), Out::Err => "OErr".into(), Out::Unit => "OUnit".into(),
+        Out::Quads(l) => format!("OQuads {}", c_ql(l)), Out::Terms(l) => format!("OTerms {}", c_ids(l)),
+        Out::Unexpected(_) => "OErr; OErr".into(), // an unexpected error never matches the model: the length differs
+    }
+}
 fn main() {}
